@@ -154,12 +154,13 @@ def cases(tier, seed):
     nrand = 60 if quick else 500
     for it in range(nrand):
         n = r.randint(2, nmax if it % 3 == 0 else 14)
-        kind = r.choice(["spd", "spd", "spdx", "nonsym", "rcrs", "posrows", "zrs", "zrspos"])
+        kind = r.choice(["spd", "spd", "spdx", "nonsym", "rcrs", "posrows", "zrs", "zrspos", "aniso", "aniso"])
         if kind == "spd": rows = gen.spd_mmatrix(r, n)
         elif kind == "spdx": rows = gen.spd_mmatrix(r, n, extra_diag=F(0))
         elif kind == "nonsym": rows = gen.nonsym_dd(r, n, density=r.choice([0.1, 0.3, 0.5]))
         elif kind == "rcrs": rows = gen.rcrs(r, n, n, dups=False, sorted_rows=(r.random() < 0.5))
         elif kind == "zrs": rows = gen.sym_zero_rowsum(r, n)
+        elif kind == "aniso": rows = gen.sym_zero_rowsum(r, n, weights=[F(1), F(4), F(1, 8), F(1, 16), F(3), F(1, 3)], extra=0.5)
         elif kind == "zrspos": rows = gen.sym_zero_rowsum(r, n, positive=0.3)
         else:
             rows = gen.spd_mmatrix(r, n)
@@ -169,6 +170,14 @@ def cases(tier, seed):
                 rows[i] = [(c, v) for c, v in rows[i] if c == i]
         if r.random() < 0.3: rows = gen.shuffle_rows(r, rows)
         scalar_ops(b, r, rows, full=True)
+    # larger sparse graphs for the C/F splitting (lambda bookkeeping), RS only
+    for it in range(40 if quick else 300):
+        n = r.randint(15, 40 if quick else 80)
+        rows = gen.spd_mmatrix(r, n, kind=r.choice(["graph", "grid", "graph"]))
+        if r.random() < 0.5: rows = gen.nonsym_dd(r, n, density=r.choice([0.08, 0.15]))
+        A = A_str(rows); er = r.choice(EPS_RS); dt = r.choice([0, 1]); et = r.choice(ETR)
+        b.add("rs", " ".join([A, fmt_q(er), str(dt), fmt_q(et), "0"]))
+        b.add("rs_cf", " ".join([A, fmt_q(er), "0"]))
     # diagonal-only matrices -> empty_level
     for n in (1, 2, 5):
         scalar_ops(b, r, [[(i, F(2))] for i in range(n)], full=True)
@@ -364,30 +373,28 @@ def run(ctx, cases_override=None):
     orc += o2; origin.update(origin2)
     def case_of(cid): return origin.get(cid)
     fo = oracle_run(ctx, orc, "C04 specification oracle on implementation output", case_of)
+    full = {l.split(" ", 1)[0]: l for l in orc}
     for x in fo:
+        for cid_, l_ in full.items():
+            if l_.startswith(x["oracle"]["line"]): x["oracle_full"] = l_; break
         x["theorem"] = {"o.partition": "C04_plain_aggregates_partition", "o.ptent": "C04_tentative_structure",
                         "o.sa_formula": "C04_sa_formula", "o.sa_rowsum": "C04_sa_row_sums",
                         "o.rs_rowsum": "C04_rs_row_sums", "o.transpose": "C03/C04 R = transpose P"}.get(x["op"], x["theorem"]) + " (oracle %s)" % x["op"]
     fails += fo
-    # ---- Ruge-Stuben with poisoned S.val (junk = all ones): model first, drop cases where the C++ would leave its arrays
+    # ---- Ruge-Stuben under a poisoning allocator (every allocation pre-filled with 0xFF): since /repo
+    #      commit 8cfa879 connect() writes every S.val cell, so the result must not depend on the fill
+    #      (the model ignores its junk input: CoarsenProofs.rs_transfer_junk_independent).  Model first:
+    #      cases where the C++ would index outside its arrays (MODEL-OOB) are not run.
     rsl = [l for l in exact if l.split(" ", 2)[1] in ("rs", "rs_cf") and l.endswith(" 0")]
     if ctx["tier"] == "quick": rsl = rsl[::4]
-    jl = [l[:-2] + " 255" for l in rsl]
-    jl = ["j" + l for l in jl]
+    jl = ["j" + l[:-2] + " 255" for l in rsl]
     mj = ctx["run_driver"](ctx["model"], jl)
     jl = [l for l in jl if not (mj.get(l.split(" ", 1)[0]) or "MODEL-OOB").startswith("MODEL-OOB")]
     fj, implj, _ = diff_run(ctx, "coarsen", jl, env=ONE)
-    for x in fj: x["theorem"] = "correspondence drv_coarsen (%s, S.val of unwritten rows = 0xFF) vs Coarsen.v with junk = true" % x["op"]
+    for x in fj: x["theorem"] = "C10/C04 rs_transfer_junk_independent: drv_coarsen (%s, heap pre-filled with 0xFF) vs Coarsen.v" % x["op"]
     fails += fj
-    dep = 0; wit = None
-    for l in jl:
-        cid = l.split(" ", 1)[0]
-        a, b_ = implj.get(cid), impl.get(cid[1:])
-        if a is not None and b_ is not None and a != b_ and l.split(" ", 2)[1] == "rs":
-            dep += 1
-            if wit is None or len(l) < len(wit[0]): wit = (l, b_, a)
-    ctx["log"].append(("RS transfer operators that depend on the uninitialised S.val (0x00 vs 0xFF fill), out of %d" % len(jl), dep))
-    if wit: ctx["log"].append(("RS junk witness", dict(case=wit[0][:600], fill00=wit[1][:300], fillFF=wit[2][:300])))
+    dep = sum(1 for l in jl if implj.get(l.split(" ", 1)[0]) != impl.get(l.split(" ", 1)[0][1:]))
+    ctx["log"].append(("RS results that depend on the heap fill (0x00 vs 0xFF), out of %d" % len(jl), dep))
     # ---- near-null space: double build + oracle
     if dbl:
         impld = ctx["run_driver"](ctx["cpp"]["coarsen"], dbl, env_extra=ONE)
@@ -423,7 +430,7 @@ def _rs_tie(fail):
     try:
         ctok = fail["case"].split(); et = F(ctok[-2]); dt = ctok[-3]
         if dt != "1": return False
-        tok = fail["oracle"]["line"].split()[2:]
+        tok = (fail.get("oracle_full") or fail["oracle"]["line"]).split()[2:]
         A, p = take_crs(tok, 0)
         n, m, rows = parse_out_crs("{" + _crs_to_out(A) + "}")
         nfl = int(tok[p]); fl = tok[p + 1:p + 1 + nfl]; p += 1 + nfl
